@@ -12,6 +12,7 @@ From V.C10 Require Import Model.
 From V.Mgr Require Import DialShape DialShapeProofs Model Caps Ledger LedgerInv.
 From V.Tcp Require Model Proofs Theorems Variants VariantTheorems Once Settle.
 From V.C05 Require TcpCompose TrCompose.
+From V.C05 Require TwoCompose TwoEvents TwoCmd TwoTheorems.
 Import ListNotations.
 Open Scope N_scope.
 
@@ -1256,3 +1257,189 @@ Example C05_sysws_history :
   quiescent (TrCompose.s_m (TrCompose.sys_run WS TrCompose.L_ws TrCompose.sys0 TrCompose.history_ws))
     (TrCompose.s_g (TrCompose.sys_run WS TrCompose.L_ws TrCompose.sys0 TrCompose.history_ws)).
 Proof. exact TrCompose.history_ws_ok. Qed.
+
+
+(* ---- manager + TCP + WebSocket, BOTH installed (coq/C05/TwoCompose.v, TwoEvents.v, TwoCmd.v, TwoTheorems.v) ----
+   The configuration the manager actually runs in: one instance of the transport model per transport
+   (side TCP, side WS of TwoCompose.sys), the shared connection-id counter kept in step (an id the
+   manager draws is a draw on both models; an id one transport draws for an inbound socket is the
+   manager's AllocConn and a draw on the other model), every call `Call.. c t` of the manager executed
+   by the model of transport t, every event a poll of one model emits handled by the manager with its
+   calls on BOTH models executed before the next event. dial(peer) opens ONE id on both transports;
+   ConnectionOpened from one transport cancels on both and negotiates on the winner. The coupling
+   invariant (TwoCompose.Inv / BInv): per transport, its open ledger is the manager's open ledger for
+   that tag, what it owes in the negotiate phase is owed in the manager's (unsplit) negotiate ledger,
+   same peer named, same counter; across transports, the two never owe the same id and together they
+   cover the manager's negotiate ledger. Inputs from outside: XCmd (user / protocol side), XNet t
+   (network / runtime on transport t); xok asks only for the clauses of `feas` about the address store,
+   the protocols and the calls that cannot fail in the models. *)
+
+(* the transport contract is no assumption for the pair: every history of outside inputs makes the manager see an event history that satisfies `feas`, and the manager part of the composed run is the manager model run on that history *)
+Theorem C05_sys2_feasible :
+  forall L : limits,
+  installed L TCP = true /\ installed L WS = true ->
+  forall xs : list TwoCompose.xev,
+  TwoCompose.xfeasible L TwoCompose.sys0 xs ->
+  feasible L init g0 (TwoCompose.sys_trace L TwoCompose.sys0 xs) /\
+  (TwoCompose.s_m (TwoCompose.sys_run L TwoCompose.sys0 xs), TwoCompose.s_g (TwoCompose.sys_run L TwoCompose.sys0 xs)) =
+  lrun L init g0 (TwoCompose.sys_trace L TwoCompose.sys0 xs).
+Proof. exact TwoTheorems.sys_feasible0. Qed.
+Print Assumptions C05_sys2_feasible.
+
+(* ... one input at a time, from any state the coupling invariant holds in *)
+Theorem C05_sys2_step :
+  forall L : limits,
+  installed L TCP = true /\ installed L WS = true ->
+  forall (st : TwoCompose.sys) (x : TwoCompose.xev),
+  TwoCompose.Inv L st ->
+  TwoCompose.xok L st x ->
+  feasible L (TwoCompose.s_m st) (TwoCompose.s_g st) (TwoCompose.sys_evs L st x) /\ TwoCompose.Inv L (TwoCompose.sys_step L st x).
+Proof. exact TwoTheorems.sys_step_inv. Qed.
+Print Assumptions C05_sys2_step.
+
+(* the ledger theorems for manager + TCP + WebSocket, without assuming anything about the transports: at most one terminal output per connection id *)
+Theorem C05_sys2_at_most_one_outcome :
+  forall L : limits,
+  installed L TCP = true /\ installed L WS = true ->
+  forall xs : list TwoCompose.xev,
+  TwoCompose.xfeasible L TwoCompose.sys0 xs -> NoDup (terminals L init (TwoCompose.sys_trace L TwoCompose.sys0 xs)).
+Proof. exact TwoTheorems.sys_at_most_one_outcome. Qed.
+Print Assumptions C05_sys2_at_most_one_outcome.
+
+(* ... no silence (the same two finding classes as in C05_no_silence: superseded by a reported connection of the same peer, limit-rejected outbound connection) *)
+Theorem C05_sys2_no_silence :
+  forall L : limits,
+  installed L TCP = true /\ installed L WS = true ->
+  forall xs : list TwoCompose.xev,
+  TwoCompose.xfeasible L TwoCompose.sys0 xs ->
+  let st := TwoCompose.sys_run L TwoCompose.sys0 xs in
+  quiescent (TwoCompose.s_m st) (TwoCompose.s_g st) ->
+  forall (c : N) (p : peer),
+  lookup c (g_att (TwoCompose.s_g st)) = Some p ->
+  In c (g_done (TwoCompose.s_g st)) \/ In c (g_super (TwoCompose.s_g st)) /\ In p (g_rep (TwoCompose.s_g st)) \/ In c (g_limrej (TwoCompose.s_g st)).
+Proof. exact TwoTheorems.sys_no_silence. Qed.
+Print Assumptions C05_sys2_no_silence.
+
+(* ... no wedged peer *)
+Theorem C05_sys2_no_wedge :
+  forall L : limits,
+  installed L TCP = true /\ installed L WS = true ->
+  forall xs : list TwoCompose.xev,
+  TwoCompose.xfeasible L TwoCompose.sys0 xs ->
+  let st := TwoCompose.sys_run L TwoCompose.sys0 xs in
+  quiescent (TwoCompose.s_m st) (TwoCompose.s_g st) -> forall p : peer, settled (state_of (TwoCompose.s_m st) p).
+Proof. exact TwoTheorems.sys_no_wedge. Qed.
+Print Assumptions C05_sys2_no_wedge.
+
+(* ... no panic site is reached *)
+Theorem C05_sys2_no_stuck :
+  forall L : limits,
+  installed L TCP = true /\ installed L WS = true ->
+  forall (xs : list TwoCompose.xev) (x : TwoCompose.xev) (s : N),
+  TwoCompose.xfeasible L TwoCompose.sys0 (xs ++ [x]) ->
+  forall (e : ev) (m : mgr) (g : ghost) (es2 : list ev),
+  TwoCompose.sys_evs L (TwoCompose.sys_run L TwoCompose.sys0 xs) x = e :: es2 ->
+  (m, g) = (TwoCompose.s_m (TwoCompose.sys_run L TwoCompose.sys0 xs), TwoCompose.s_g (TwoCompose.sys_run L TwoCompose.sys0 xs)) ->
+  ~ In (Stuck s) (snd (step L m e)).
+Proof. exact TwoTheorems.sys_no_stuck. Qed.
+Print Assumptions C05_sys2_no_stuck.
+
+(* quiescence, read off the two transport models' own ledgers *)
+Theorem C05_sys2_quiescent :
+  forall L : limits,
+  installed L TCP = true /\ installed L WS = true ->
+  forall xs : list TwoCompose.xev,
+  TwoCompose.xfeasible L TwoCompose.sys0 xs ->
+  let st := TwoCompose.sys_run L TwoCompose.sys0 xs in
+  quiescent (TwoCompose.s_m st) (TwoCompose.s_g st) <->
+  (forall u : tr,
+   TwoCompose.tagged u ->
+   TwoCompose.TM.g_open (TwoCompose.t_g (TwoCompose.side st u)) = [] /\
+   TwoCompose.TM.g_neg (TwoCompose.t_g (TwoCompose.side st u)) = []) /\
+  accepting (TwoCompose.s_m st) = [].
+Proof. exact TwoTheorems.sys_quiescent0. Qed.
+Print Assumptions C05_sys2_quiescent.
+
+(* whatever the manager waits for is backed by a pending un-cancelled future of one of the two transport models *)
+Theorem C05_sys2_owed_is_pending :
+  forall L : limits,
+  installed L TCP = true /\ installed L WS = true ->
+  forall (xs : list TwoCompose.xev) (c : conn),
+  TwoCompose.xfeasible L TwoCompose.sys0 xs ->
+  let st := TwoCompose.sys_run L TwoCompose.sys0 xs in
+  owed (TwoCompose.s_g st) c ->
+  exists u : tr,
+    TwoCompose.tagged u /\
+    ((exists (f : N) (rem : list (N * TwoCompose.TM.expect)),
+        TwoCompose.TM.lookup f (TwoCompose.TM.praw (TwoCompose.t_s (TwoCompose.side st u))) = Some c /\
+        TwoCompose.TM.lookup f (TwoCompose.TM.attempts (TwoCompose.t_s (TwoCompose.side st u))) = Some rem /\
+        ~ In f (TwoCompose.TM.aborted (TwoCompose.t_s (TwoCompose.side st u)))) \/
+     (exists (f : N) (k : TwoCompose.TM.kind),
+        TwoCompose.TM.lookup f (TwoCompose.TM.pconn (TwoCompose.t_s (TwoCompose.side st u))) = Some (c, k) /\
+        TwoCompose.TM.is_inb k = false)).
+Proof. exact TwoTheorems.sys_owed_is_pending0. Qed.
+Print Assumptions C05_sys2_owed_is_pending.
+
+(* ... and there is an allowed network / runtime input on one of the two transports whose handling hands the manager an answer for it *)
+Theorem C05_sys2_progress :
+  forall L : limits,
+  installed L TCP = true /\ installed L WS = true ->
+  forall (xs : list TwoCompose.xev) (c : conn),
+  TwoCompose.xfeasible L TwoCompose.sys0 xs ->
+  let st := TwoCompose.sys_run L TwoCompose.sys0 xs in
+  owed (TwoCompose.s_g st) c ->
+  exists (u : tr) (n : TwoCompose.TM.ev),
+    TwoCompose.tagged u /\
+    TwoCompose.TM.polls n = true /\
+    TwoCompose.xfeasible L TwoCompose.sys0 (xs ++ [TwoCompose.XNet u n]) /\
+    (exists e : ev, In e (TwoCompose.sys_evs L st (TwoCompose.XNet u n)) /\ TrCompose.answers c e).
+Proof. exact TwoTheorems.sys_progress0. Qed.
+Print Assumptions C05_sys2_progress.
+
+(* the three copies of the shared connection-id counter agree in every reachable state; the two transports never owe a negotiate-phase answer / an inbound answer for the same id *)
+Theorem C05_sys2_counters_in_step :
+  forall L : limits,
+  installed L TCP = true /\ installed L WS = true ->
+  forall xs : list TwoCompose.xev,
+  TwoCompose.xfeasible L TwoCompose.sys0 xs ->
+  let st := TwoCompose.sys_run L TwoCompose.sys0 xs in
+  (forall u : tr, TwoCompose.tagged u -> TwoCompose.TM.ctr (TwoCompose.t_s (TwoCompose.side st u)) = next_conn (TwoCompose.s_m st)) /\
+  (forall c : N, In c (TwoCompose.TM.g_neg (TwoCompose.t_g (TwoCompose.side st TCP))) ->
+                 ~ In c (TwoCompose.TM.g_neg (TwoCompose.t_g (TwoCompose.side st WS)))) /\
+  (forall c : N, In c (TwoCompose.TM.g_inb (TwoCompose.t_g (TwoCompose.side st TCP))) ->
+                 ~ In c (TwoCompose.TM.g_inb (TwoCompose.t_g (TwoCompose.side st WS)))).
+Proof. exact TwoTheorems.sys_counters0. Qed.
+Print Assumptions C05_sys2_counters_in_step.
+
+(* what the two bookkeeping models inside the composed system stand for: when the manager handles an event, side u is the model of the transport of tag u (TCP -> TcpTransport, WS -> WebSocketTransport; coq/Tcp/Variants.v) run on the REAL trait calls: the draws of the shared counter and the calls with the canonical addresses of the dialled peer (the calls themselves: C05_sysT_calls_are_real) *)
+Theorem C05_sys2_sides_are_their_models :
+  forall (L : limits) (src : option tr) (k : tr -> nat) (st : TwoCompose.sys) (e : ev) (u : tr),
+  TwoCompose.tagged u ->
+  TwoCompose.side (TwoCompose.deliver L src k st e) u =
+  TwoTheorems.xexec (TrCompose.transport_of u) (TwoCompose.side st u) (TwoTheorems.real_calls L src k u (TwoCompose.s_m st) e).
+Proof. exact TwoTheorems.side_real. Qed.
+Print Assumptions C05_sys2_sides_are_their_models.
+
+(* non-vacuity: both installed: dial(peer 5) opens id 0 on TCP and on WS; WS answers first with another identity (OpenFailure from WS, silent), TCP completes with peer 5 (ConnectionOpened, cancel, negotiate, ConnectionEstablished, accepted); a socket arrives at the WS listener (id 1 drawn by WS, the other counters follow); dial_address on TCP gets id 2 and fails (DialFailure); peer 8 is dialled through the handle on both transports, TCP wins while WS is still trying: cancel on TCP AND WS; nothing owed at the end, the cancelled WS future is gone, the three counters agree *)
+Example C05_sys2_history :
+  TwoCompose.xfeasible TwoTheorems.L_both TwoCompose.sys0 TwoTheorems.history2 /\
+  TwoCompose.sys_trace TwoTheorems.L_both TwoCompose.sys0 TwoTheorems.history2 =
+    [CmdAddAddr 5 TCP; CmdAddAddr 5 WS; CmdDialPeer 5 [TCP; WS] [];
+     TrOpenFailure 0 WS 5; TrOpened 0 TCP false; TrEstablished 5 0 TCP false false; AcceptDone 0 true;
+     AllocConn; TrPendingInbound 1 WS; TrEstablished 7 1 WS true false; AcceptDone 1 true;
+     HDialAddr (canon 6 TCP) false; TrDialFailure 2 TCP 6;
+     CmdAddAddr 8 TCP; CmdAddAddr 8 WS; HDialPeer 8 [TCP; WS] [] false;
+     TrOpened 3 TCP false; TrEstablished 8 3 TCP false false; AcceptDone 3 true] /\
+  snd (run TwoTheorems.L_both init (TwoCompose.sys_trace TwoTheorems.L_both TwoCompose.sys0 TwoTheorems.history2)) =
+    [[]; []; [CallOpen 0 TCP; CallOpen 0 WS; Ret RET_OK]; [];
+     [CallCancel 0 TCP; CallNegotiate 0 TCP]; [CallAccept 0 TCP]; [EvEstablished 5 0];
+     [Ret (RET_ALLOC + 1)]; [CallAcceptPending 1 WS]; [CallAccept 1 WS]; [EvEstablished 7 1];
+     [Ret RET_OK; CallDial 2 TCP; Logged RET_OK]; [ProtoDialFailure 6; EvDialFailure 2 6];
+     []; []; [Ret RET_OK; CallOpen 3 TCP; CallOpen 3 WS; Logged RET_OK];
+     [CallCancel 3 TCP; CallCancel 3 WS; CallNegotiate 3 TCP]; [CallAccept 3 TCP]; [EvEstablished 8 3]] /\
+  (let st := TwoCompose.sys_run TwoTheorems.L_both TwoCompose.sys0 TwoTheorems.history2 in
+   quiescent (TwoCompose.s_m st) (TwoCompose.s_g st) /\
+   TwoCompose.TM.praw (TwoCompose.t_s (TwoCompose.side st WS)) = [] /\
+   (TwoCompose.TM.ctr (TwoCompose.t_s (TwoCompose.side st TCP)), TwoCompose.TM.ctr (TwoCompose.t_s (TwoCompose.side st WS)),
+    next_conn (TwoCompose.s_m st)) = (4, 4, 4)).
+Proof. exact TwoTheorems.history2_ok. Qed.
